@@ -162,10 +162,19 @@ def family(e):
     return isinstance(e, psx.PSException)
 
 
+class WorkBoundExceeded(BaseException):
+    pass
+
+
+WORK_PER_BYTE, WORK_CONST = 300, 300000      # executed source lines allowed: 300 per input byte + 300 000 (undamaged seeds need about 18 per byte)
+
+
 def run_entry_points(data, which=(0, 1, 2)):
-    """returns None when every entry point returned or raised inside the family, else (entry point, exception text)"""
-    import io, signal
+    """returns None when every entry point returned or raised inside the family within the work bound, else (entry point, exception text, where).
+    Work is measured as executed Python source lines (sys.settrace 'line' events, library and interpreter code alike)."""
+    import io, signal, sys
     hl = real_module("pdfminer.high_level")
+    bound = WORK_PER_BYTE * len(data) + WORK_CONST
 
     def onalarm(signum, frame):
         raise TimeoutError("no result after 10 s on a %d-byte document" % len(data))
@@ -176,11 +185,24 @@ def run_entry_points(data, which=(0, 1, 2)):
     try:
         for k in which:
             nm, fn = calls[k]
+            count = [0]
+
+            def tracer(frame, event, arg):
+                if event == "line":
+                    count[0] += 1
+                    if count[0] > bound:
+                        raise WorkBoundExceeded("more than %d executed lines (%d per byte + %d) on a %d-byte document" % (bound, WORK_PER_BYTE, WORK_CONST, len(data)))
+                return tracer
             try:
                 signal.alarm(10)
-                fn()
+                sys.settrace(tracer)
+                try:
+                    fn()
+                finally:
+                    sys.settrace(None)
                 signal.alarm(0)
             except BaseException as e:  # noqa: BLE001
+                sys.settrace(None)
                 signal.alarm(0)
                 if isinstance(e, KeyboardInterrupt):
                     raise
@@ -192,6 +214,7 @@ def run_entry_points(data, which=(0, 1, 2)):
                     return nm, "%s: %s" % (type(e).__name__, str(e)[:120]), loc
         return None
     finally:
+        sys.settrace(None)
         signal.alarm(0)
         signal.signal(signal.SIGALRM, old)
 
@@ -199,9 +222,9 @@ def run_entry_points(data, which=(0, 1, 2)):
 @bounded("single-faults-and-truncation", props=["C13"],
          bound="three feature-covering seed documents (classic table + inherited attributes + simple font/Differences + outlines + labels + PNG-predictor image + form; "
                "xref stream + object streams + Type0/ToUnicode/W + inline image + ICC colour space; one image per filter LZW/RunLength/ASCIIHex/ASCII85/LZW+TIFF predictor + "
-               "filter chain with indirect Length). quick: every self-reference and reference-cycle fault plus 1000 seeded single faults out of all (site x {15 replacement values, remove}) and stream-payload faults "
-               "(truncate, corrupt, empty) + truncation at a stride of 1/120 of the file and at every byte around each structural keyword; thorough: every fault and every truncation point. Entry points extract_text, extract_pages, "
-               "extract_text_to_fp(xml); 'work bounded' is observed only as a 10 s alarm (documents are < 5 kB)")
+               "filter chain with indirect Length). quick: every self-reference and chain-into-cycle fault plus 500 seeded single faults out of all (site x {15 replacement values, remove}) and stream-payload faults "
+               "(truncate, corrupt, empty) + truncation at a stride of 1/60 of the file and at every byte around each trailer/xref/stream keyword; thorough: every fault and every truncation point. Entry points extract_text, extract_pages, "
+               "extract_text_to_fp(xml); work is measured as executed source lines (settrace) against the bound 300 x bytes + 300 000 (undamaged seeds need about 18 per byte), with a 10 s alarm behind it")
 def _(tier, seed):
     import random
     rng = random.Random(seed + 13)
@@ -230,16 +253,16 @@ def _(tier, seed):
         else:
             # a stride over the file plus every cut point around the structural keywords (where the recovery paths start)
             import re as _re
-            cuts = set(range(0, len(base), max(1, len(base) // 120)))
-            for m_ in _re.finditer(rb"trailer|startxref|xref|endstream|stream|endobj|obj|<<|>>|%%EOF", base):
+            cuts = set(range(0, len(base), max(1, len(base) // 60)))
+            for m_ in _re.finditer(rb"trailer|startxref|xref|endstream|stream|%%EOF", base):
                 cuts.update(range(max(0, m_.start() - 1), min(len(base), m_.end() + 3)))
         trunc.extend((nm, None, None, "truncate-file", cut, None) for cut in sorted(cuts))
     if tier == "quick":
         # every reference fault (self, cycle: the ones that can hang or exhaust the stack) plus a seeded sample of the others
-        always = [c_ for c_ in cases if c_[4] in ("self-ref", "cycle-ref", "chain-into-cycle-ref")]
-        rest = [c_ for c_ in cases if c_[4] not in ("self-ref", "cycle-ref", "chain-into-cycle-ref")]
+        always = [c_ for c_ in cases if c_[4] in ("self-ref", "chain-into-cycle-ref")]
+        rest = [c_ for c_ in cases if c_[4] not in ("self-ref", "chain-into-cycle-ref")]
         rng.shuffle(rest)
-        cases = always + rest[:1000]
+        cases = always + rest[:500]
     cases += trunc
     for nm, num, path, kind, vn, v in cases:
         m = models[nm]
@@ -257,7 +280,7 @@ def _(tier, seed):
         r = run_entry_points(data)
         if r is not None:
             key = (r[1].split(":")[0], r[2])
-            if r[1].startswith("TimeoutError"):
+            if r[1].startswith("TimeoutError") or r[1].startswith("WorkBoundExceeded"):
                 hangs += 1
             if key not in seen_loc:            # one report per leaking site in the library
                 seen_loc.add(key)
